@@ -21,6 +21,7 @@ type Clause struct {
 	File  string
 	Line  int
 	Ghost bool // ghost update performed by the contract itself: assumed at call sites, not an obligation of implementers
+	Callee string // callsite clauses: (suffix of) the callee's name
 }
 
 type Contract struct {
@@ -35,6 +36,7 @@ type Contract struct {
 	Always   []*Clause // two-state invariants (entry state vs now) that must hold after every call made by the function
 	Decrs    []*Clause // loop N decreases EXPR
 	RetReqs  []*Clause // loop N return-requires EXPR
+	CallReqs []*Clause // callsite CALLEE :: EXPR (Callee in Clause.Callee)
 	Steps    []*Clause // guarantee of every single call made by the function (state before that call vs after it)
 	Invs     []*Clause
 	Lets     []letDef
@@ -112,7 +114,7 @@ var (
 )
 
 var clauseKeywords = map[string]bool{
-	"property": true, "requires": true, "ensures": true, "always": true, "step": true, "assigns": true, "loop": true, "let": true,
+	"property": true, "requires": true, "ensures": true, "always": true, "step": true, "callsite": true, "assigns": true, "loop": true, "let": true,
 	"trusted": true, "pure": true, "fresh": true, "effects": true, "safety": true, "nosafety": true,
 	"implements": true, "use": true, "rangefunc": true, "yields": true, "spec": true, "ghost": true, "axiom": true, "lemma": true, "reveal": true, "smt": true, "func": true, "extern": true, "iface": true, "fnparam": true, "const": true, "end": true,
 }
@@ -289,6 +291,15 @@ func (sp *Specs) parseContractFile(path string, pkgPath string) error {
 				cur.Ensures = append(cur.Ensures, cl)
 			case "always":
 				cur.Always = append(cur.Always, cl)
+			case "callsite":
+				nm, ex, ok := strings.Cut(body, "::")
+				if !ok {
+					return fmt.Errorf("%s:%d: expected `callsite CALLEE :: EXPR`", path, ln.n)
+				}
+				cl.Callee = strings.TrimSpace(nm)
+				cl.Kind = "callsite"
+				cl.Expr = strings.TrimSpace(ex)
+				cur.CallReqs = append(cur.CallReqs, cl)
 			case "step":
 				cur.Steps = append(cur.Steps, cl)
 			case "loop":
